@@ -1,4 +1,5 @@
 import EtVerif.Props.C10
+import EtVerif.Props.TrC10
 #print axioms EtVerif.C10.newCSR_cells
 #print axioms EtVerif.C10.newCSR_stored
 #print axioms EtVerif.C10.newCSR_no_zero
@@ -28,3 +29,7 @@ import EtVerif.Props.C10
 #print axioms EtVerif.C10.shrink_then_grow
 #print axioms EtVerif.C10.resize_step
 #print axioms EtVerif.C10.resize_history
+-- refinement of the translated Go kernels (Gen/Translated.lean, regenerated from /repo) to the model
+#print axioms EtVerif.TrC10.dim
+#print axioms EtVerif.TrC10.nnz
+#print axioms EtVerif.TrC10.setMinorDim
